@@ -12,6 +12,22 @@ NOT_APPLICABLE = {
 }
 
 PROPERTIES = {
+    "C14": {
+        "modules": ["harness.c14"],
+        "selfchecks": ["engine/selfcheck_shim.py"],
+        "explanation": "",
+        "assumptions": COMMON_ASSUMPTIONS + [
+            "the claim is RELATIVE to shim/bitcoin/core (python-bitcoinlib 0.12.2 semantics re-implemented without bytes/int subclasses and "
+            "with arithmetic instead of shifts); the shim is validated on every run by the repository's own tests/comm/test_bitcoin.py samples",
+            "inside comm.bitcoin the name `bytes` is rebound so that bytes.fromhex(<harness hex model>) yields the symbolic byte list; "
+            "the hex codec itself is outside the claim",
+            "scripts with more than 2 (thorough: 3) operations, pushes with more than 2 symbolic bytes, and transactions beyond the 5 "
+            "input/output shapes are outside the bound",
+        ],
+        "level_text": "bounded symbolic verification of the transaction transformation: script shape as partition with symbolic push contents / "
+                      "opcode values, 24 symbolic frame bytes, truncation offset symbolic; oracle = own script reader and own serialiser",
+        "level_note": "trusted: CrossHair/z3, the bitcoin.core shim",
+    },
     "C08": {
         "modules": ["harness.c08"],
         "explanation": "",
@@ -120,6 +136,7 @@ PROPERTIES = {
     },
     "C01": {
         "modules": ["harness.c01"],
+        "selfchecks": ["engine/selfcheck_shim.py"],
         "explanation": "",
         "assumptions": COMMON_ASSUMPTIONS + [
             "device = sim/ledger.py: parses the sign stream the way auth.c / auth_path.c / auth_tx.c / auth_receipt.c / auth_trie.c do "
